@@ -9,7 +9,7 @@
 From Coq Require Import List NArith ZArith Lia Bool.
 From Coq Require Import Init.Byte.
 From FFS Require Import Base.Res Base.Bytes Rlp.Model Rlp.Spec Rlp.Proofs Tx.Model Tx.Spec Tx.Norm
-  Tx.RecoverModel Tx.RecoverProofs Tx.RecoverProofs2 Tx.RecoverSecp.
+  Tx.RecoverModel Tx.RecoverProofs Tx.RecoverProofs2 Tx.RecoverProofs3 Tx.RecoverSecp.
 From FFS Require Crypto.Ecdsa Secp.Model Secp.Proofs.
 Import ListNotations.
 
@@ -189,6 +189,41 @@ Theorem C10_legacy_v_meaning :
 Proof. exact legacy_v_meaning. Qed.
 Print Assumptions C10_legacy_v_meaning.
 
+(* 9. (round 3) The elements of an accepted input ARE the specification's elements of the returned fields -
+      with NO hypothesis about the hash function or RecoverDirect and for EVERY chain id (negative ones
+      included; compare the bound of theorem 2): whenever an entry point returns a transaction, the input
+      decodes to a list of at least 9 / 12 / 9 elements whose first six (legacy) or nine (type 0x02)
+      elements, read as Yellow-Paper trees, are exactly the list Tx/Spec.v builds from the returned fields
+      (type 0x02: with the access list found in the input).  Hence no accepted input writes a field in a
+      second way (leading zero byte, 19-byte destination, a list for a string): the repaired defect D10f. *)
+Theorem C10_elements_are_fields :
+  forall (H : bytes -> bytes) (RD : sigdata -> bytes -> Z -> res bytes) (bs : bytes) (chain : Z),
+    (forall a t p, RecoverRawTransaction H RD bs chain = Ok (a, t, p) ->
+       (exists l pos,
+          Decode bs = Ok (Some (Lst l), pos) /\ (9 <= length l)%nat /\
+          map to_tree (firstn 6 l) = legacy_body (norm t))
+       \/
+       (exists rest l pos al,
+          bs = x02 :: rest /\ Decode rest = Ok (Some (Lst l), pos) /\ (12 <= length l)%nat /\
+          nth_error l 8 = Some (Lst al) /\
+          map to_tree (firstn 9 l) = eip1559_body_al (norm t) (Z.to_N chain) (L (map to_tree al)))) /\
+    (forall a t p, RecoverLegacyRawTransaction H RD bs chain = Ok (a, t, p) ->
+       exists l pos,
+         Decode bs = Ok (Some (Lst l), pos) /\ (9 <= length l)%nat /\
+         map to_tree (firstn 6 l) = legacy_body (norm t)) /\
+    (forall a t p, RecoverEIP1559Transaction H RD bs chain = Ok (a, t, p) ->
+       exists rest l pos al,
+         bs = x02 :: rest /\ Decode rest = Ok (Some (Lst l), pos) /\ (12 <= length l)%nat /\
+         nth_error l 8 = Some (Lst al) /\
+         map to_tree (firstn 9 l) = eip1559_body_al (norm t) (Z.to_N chain) (L (map to_tree al))) /\
+    (forall t, DecodeEIP1559SignaturePayload bs chain = Ok t ->
+       exists rest l pos al,
+         bs = x02 :: rest /\ Decode rest = Ok (Some (Lst l), pos) /\ (9 <= length l)%nat /\
+         nth_error l 8 = Some (Lst al) /\
+         map to_tree (firstn 9 l) = eip1559_body_al (norm t) (Z.to_N chain) (L (map to_tree al))).
+Proof. exact elements_are_fields_all. Qed.
+Print Assumptions C10_elements_are_fields.
+
 (* ---------- non-vacuity ---------- *)
 (* a legacy EIP-155 transaction (chain 1, V = 37) and a type-0x02 transaction are accepted by the
    model under the trivial parameters (which satisfy both hypotheses used above), so the premises of
@@ -220,3 +255,12 @@ Example C10_repaired_witnesses :
   is_err (RecoverRawTransaction H_triv RD_triv
             [x02; xd4; x89; x01; x00; x00; x00; x00; x00; x00; x00; x01; x05; x02; x03; x04; x80; x06; x80; xc0; x01; x07; x08] 1) = true.
 Proof. vm_compute. auto. Qed.
+
+(* theorem 9 is not vacuous for a negative chain id either: a legacy transaction in the EIP-155 form for
+   chain -1 (V = 35 + 2*(-1) = 33) is accepted, and its first six elements are the specification's *)
+Example C10_nonvacuous_elements_negative_chain :
+  let bs := [xc9; x01; x02; x03; x80; x04; x80; x21; x01; x01] in
+  exists a t p l pos, RecoverRawTransaction H_triv RD_triv bs (-1) = Ok (a, t, p) /\
+    Decode bs = Ok (Some (Lst l), pos) /\ map to_tree (firstn 6 l) = legacy_body (norm t) /\
+    tx_nonce t = Some 1%Z.
+Proof. cbv zeta. do 5 eexists. split; [vm_compute; reflexivity|]. vm_compute. auto. Qed.
